@@ -176,9 +176,14 @@ def run(ctx):
             continue
         seen.add(id(fn))
         s.count(mi.name)
-        for b in cases:
+        rb = ctx.rng("C06.bindings")
+        from harness import codecio
+        for n_case, b in enumerate(cases):
             if len(b) > 300:
                 continue
+            if n_case % 97 == 0:
+                # other calls into the module in between, also ones that are refused half-way
+                codecio.failing_encode(rb, rb.choice(["latin-1", "ascii"]))
             s.case({"binding": mi.name, "len": len(b)})
             try:
                 got = "ok " + hexb(fn(b))
